@@ -14,14 +14,19 @@
 (***************************************************************************)
 EXTENDS ScnLib
 
-CONSTANTS Tier, Seed, Mod, TickMs, MaxOps
+CONSTANTS Tier, Seed, Mod, TickMs, MaxOps,
+          SubSize     \* 0: a history draws its queries from the whole basket; 3: from three of them, chosen per history
+                      \* (what one query leaves behind then meets the same few queries again and again)
 
 Queries == << "sum by (a) (m)", "m", "rate(m[3s])", "topk(1, m)", "m + on (a) group_left () n", "abs(m{a=\"x\"}) + m", "scalar(n{a=\"x\"})",
               "m + on (a) n", "absent(nope)", "max_over_time(m[4s:2s])", "m @ 3", "sum(m) / count(m)", "time()", "quantile by (a) (0.5, m)",
               \* range functions over ranges of different lengths (what one query buffers must not serve the next)
               "sum_over_time(m[2s])", "sum_over_time(m[9s])", "sum by (a) (count_over_time(m[5s]))", "last_over_time(m[1s])",
               \* selectors pinned to the start / end of the window they are asked for (the same text means something else in every window)
-              "m @ end()", "sum(m @ start())", "sum_over_time(m[3s] @ end())", "m - m @ start()" >>
+              "m @ end()", "sum(m @ start())", "sum_over_time(m[3s] @ end())", "m - m @ start()",
+              \* name-dropping operators over a metric that hands over to another one (ho ends before ho2 begins): over a range
+              \* the two are one series of the result, and what the engine did to find that out must not be seen by the next query
+              "abs({__name__=~\"ho|ho2\"})", "-{__name__=~\"ho|ho2|m\"}", "abs({a=~\"h|x\"})" >>
 \* kinds: ok = plain execution; cancel = executed with a context cancelled beforehand or midway; (failing / fallback
 \* queries are in the basket: index 8 fails with many-to-many, 9 and 10 take the fallback path)
 ExecKinds == {"ok", "ok", "cancel-before", "cancel-mid"}
@@ -30,20 +35,22 @@ Windows == << [start |-> 2, end |-> 2, step |-> 0, qlb |-> 0], [start |-> 1, end
               [start |-> 2, end |-> 14, step |-> 1, qlb |-> 1], [start |-> 4, end |-> 4, step |-> 0, qlb |-> 9] >>
 AppendKinds == {"sample", "series", "stale", "gap"}
 
-VARIABLES hist, results
-vars == <<hist, results>>
-Init == hist = <<>> /\ results = 0
+VARIABLES hist, results, basket
+vars == <<hist, results, basket>>
+NQ == Len(Queries)
+Init == /\ hist = <<>> /\ results = 0
+        /\ basket \in IF SubSize = 0 THEN {1..NQ} ELSE {{a, b, c} : a \in 1..NQ, b \in 1..NQ, c \in 1..NQ}
 
 Exec == /\ Len(hist) < MaxOps
-        /\ \E q \in 1..Len(Queries), w \in 1..Len(Windows), k \in ExecKinds :
+        /\ \E q \in basket, w \in 1..Len(Windows), k \in ExecKinds :
              hist' = Append(hist, [op |-> "exec", q |-> q, w |-> w, kind |-> k, a |-> ""])
-        /\ results' = results + 1
+        /\ results' = results + 1 /\ UNCHANGED basket
 AppendOp == /\ Len(hist) < MaxOps
             /\ \E k \in AppendKinds : hist' = Append(hist, [op |-> "append", q |-> 0, w |-> 0, kind |-> k, a |-> ""])
-            /\ UNCHANGED results
+            /\ UNCHANGED <<results, basket>>
 CloseOp == /\ Len(hist) < MaxOps /\ results > 0
            /\ \E r \in 1..results : hist' = Append(hist, [op |-> "close", q |-> r, w |-> 0, kind |-> "", a |-> ""])
-           /\ UNCHANGED results
+           /\ UNCHANGED <<results, basket>>
 Next == Exec \/ AppendOp \/ CloseOp
 Spec == Init /\ [][Next]_vars
 
@@ -51,7 +58,9 @@ Data == << Series(<< <<"__name__","m">>, <<"a","x">>, <<"b","1">> >>, [i \in 1..
            Series(<< <<"__name__","m">>, <<"a","x">>, <<"b","2">> >>, [i \in 1..8 |-> Smp(i - 1, "f", 10 + i)]),
            Series(<< <<"__name__","m">>, <<"a","y">> >>, [i \in 1..4 |-> Smp(2 * i - 1, "f", 100 - i)]),
            Series(<< <<"__name__","n">>, <<"a","x">> >>, [i \in 1..8 |-> Smp(i - 1, "f", 2)]),
-           Series(<< <<"__name__","n">>, <<"a","y">> >>, [i \in 1..8 |-> Smp(i - 1, "f", 4)]) >>
+           Series(<< <<"__name__","n">>, <<"a","y">> >>, [i \in 1..8 |-> Smp(i - 1, "f", 4)]),
+           Series(<< <<"__name__","ho">>, <<"a","h">> >>, [i \in 1..2 |-> Smp(i - 1, "f", 50 + i)]),
+           Series(<< <<"__name__","ho2">>, <<"a","h">> >>, [i \in 1..3 |-> Smp(i + 4, "f", 60 + i)]) >>
 
 \* the long-lived engine of a history: a plain engine, or a distributed engine over two long-lived remote
 \* (local) engines that hold the series of even and of odd index of the growing storage
